@@ -16,21 +16,25 @@ theorem stage_poll {g : Cfg} (ok : g.OK) {c : Conn} (hst : Stage g c) :
   | start hph hwire hraw hlog hb hstop hsc hm hev => exact start_poll ok hph hwire hraw hlog hb hstop hsc hm hev
   | parse hst hsc hm hev => exact (parse_poll ok hst hsc hm hev).mono (by omega)
   | @hread r h hph hr hb hstop hev hsc =>
-    refine (handler_core ok hph (read_phase hr hb ?_) hb hstop hev hsc).mono (by omega)
+    refine (handler_core ok hph (read_phase (kok ok) hr hb ?_) hb hstop hev hsc).mono (by omega)
     have := handlerFuel_ge c.env
     have := ok.hfuel
     show alignedBufsize g.b / 32 + 3 * c.env.tr.input.length + wcost g.data.length + 12 ≤ _
     omega
-  | @hwrite r h hph hw hb hstop hev hsc =>
+  | @hwrite r h O1 hph hw hb hstop hev hsc =>
     refine (handler_core ok hph (write_phase hw hb ?_) hb hstop hev hsc).mono (by omega)
     have := handlerFuel_ge c.env
     have := ok.hfuel
     omega
-  | @close r rest hph hce hm hlog hb hstop hev hre hsc =>
-    refine (close_core ok (r2 := r) (rest := rest) hph ?_ hce hm hlog hb hstop hev hre hsc).mono (by omega)
+  | @closeW r rest O1 O2 hph hO hce hm hlog hb hstop hev hre hsc =>
+    refine (close_out ok (r2 := r) (rest := rest) hO hph ?_ hce hm hlog hb hstop hev hre hsc).mono (by omega)
+    rw [closePoll_late _ _ _ _ _ _ rfl]
+  | @close r rest O1 O2 hph hO hce hm hlog hb hstop hev hre hsc =>
+    refine (close_core ok (r2 := r) (rest := rest) hO hph ?_ (.refl _) rfl hce hm hlog hb hstop hev hre hsc).mono
+      (by omega)
     rw [closePoll_late _ _ _ _ _ _ rfl]
     rfl
-  | idle hst _ hkeep hev hre hsc hmx => exact (idle_poll ok hst hkeep hev hre hsc hmx).mono (by omega)
+  | idle hO hst _ hkeep hev hre hsc hmx => exact (idle_poll ok hO hst hkeep hev hre hsc hmx).mono (by omega)
 
 /-! ## Stages do not look at the trace, the waker flag, or `hold` -/
 
@@ -63,6 +67,12 @@ theorem PSt.cong {cap mc : Nat} {W0 L0 Z : Bytes} {c c' : Conn} {F : Bytes} (h :
   ⟨by rw [hs.input]; exact h.wire, hstop.trans h.stop, hs.ben h.ben, h.rem, by
     rw [hph, hs.wlog]; exact h.ph⟩
 
+theorem RSt.cong {K : RCtx} {L : Bytes} {r : AReq} {m m' : MutexSt} {t t' : Transport} {dC dO : Bytes}
+    (h : RSt K L r m t dC dO) (hm : m' = m) (hs : TrSame t t') : RSt K L r m' t' dC dO := by
+  subst hm
+  obtain ⟨⟨G, hi⟩, lk, mx, ⟨O1, l1, l2⟩⟩ := h
+  exact ⟨⟨G, by rw [hs.input]; exact hi⟩, lk, mx, ⟨O1, by rw [hs.wlog]; exact l1, l2⟩⟩
+
 theorem Stage.cong {g : Cfg} {c c' : Conn} (h : Stage g c) (hph : c'.phase = c.phase)
     (hsc : c'.scripts = c.scripts) (hstop : c'.stop = c.stop) (hm : c'.env.mutex = c.env.mutex)
     (hs : TrSame c.env.tr c'.env.tr) : Stage g c' := by
@@ -73,25 +83,28 @@ theorem Stage.cong {g : Cfg} {c c' : Conn} (h : Stage g c) (hph : c'.phase = c.p
   | parse hst hsc0 hm0 hev =>
     exact .parse (hst.cong hph hstop hs) (hsc.trans hsc0) (hm.trans hm0) (hs.hs.trans hev)
   | @hread r h hph0 hr hb hstop0 hev hsc0 =>
-    refine .hread (hph.trans hph0) ⟨hr.ops, hr.ws, hr.pr, ?_, hm.trans hr.mtx, hs.wlog.trans hr.log⟩
+    refine .hread (hph.trans hph0) ⟨hr.ops, hr.ws, hr.pr, ?_⟩
       (hs.ben hb) (hstop.trans hstop0) (hs.ev1 hev) (hsc.trans hsc0)
-    obtain ⟨remC, h1, h2⟩ := hr.rem
-    exact ⟨remC, h1, by rw [hs.input]; exact h2⟩
-  | @hwrite r h hph0 hw hb hstop0 hev hsc0 =>
-    refine .hwrite (hph.trans hph0) ⟨hw.ops, hw.pr, ?_, hw.len, by rw [hs.input]; exact hw.fin, hs.mem hw.ev⟩
-      (hs.ben hb) (hstop.trans hstop0) (hs.ev1 hev) (hsc.trans hsc0)
+    obtain ⟨dO, h1⟩ := hr.rem
+    exact ⟨dO, h1.cong hm hs⟩
+  | @hwrite r h O1 hph0 hw hb hstop0 hev hsc0 =>
+    refine .hwrite (hph.trans hph0) ⟨hw.ops, hw.pr, ?_, hw.len, by rw [hs.input]; exact hw.fin, hw.out,
+      hs.mem hw.ev⟩ (hs.ben hb) (hstop.trans hstop0) (hs.ev1 hev) (hsc.trans hsc0)
     obtain ⟨w, L, sent, h1, h2, h3, h4⟩ := hw.wr
     exact ⟨w, L, sent, h1, by rw [hm]; exact h2, hs.wlog.trans h3, h4⟩
-  | @close r rest hph0 hce hm0 hlog hb hstop0 hev hre hsc0 =>
-    exact .close (hph.trans hph0) (by rw [hs.input]; exact hce) (hm.trans hm0) (by rw [hs.wlog]; exact hlog)
+  | @closeW r rest O1 O2 hph0 hO hce hm0 hlog hb hstop0 hev hre hsc0 =>
+    exact .closeW (hph.trans hph0) hO (by rw [hs.input]; exact hce) (hm.trans hm0) (by rw [hs.wlog]; exact hlog)
       (hs.ben hb) (hstop.trans hstop0) (hs.ev1 hev) (hs.mem hre) (hsc.trans hsc0)
-  | idle hst hfin hkeep hev hre hsc0 hmx =>
-    exact .idle (hst.cong hph hstop hs) (by rw [hs.input]; exact hfin) hkeep (hs.ev1 hev) (hs.mem hre)
+  | @close r rest O1 O2 hph0 hO hce hm0 hlog hb hstop0 hev hre hsc0 =>
+    exact .close (hph.trans hph0) hO (by rw [hs.input]; exact hce) (hm.trans hm0) (by rw [hs.wlog]; exact hlog)
+      (hs.ben hb) (hstop.trans hstop0) (hs.ev1 hev) (hs.mem hre) (hsc.trans hsc0)
+  | idle hO hst hfin hkeep hev hre hsc0 hmx =>
+    exact .idle hO (hst.cong hph hstop hs) (by rw [hs.input]; exact hfin) hkeep (hs.ev1 hev) (hs.mem hre)
       (hsc.trans hsc0) (hm.trans hmx)
 
-theorem Parked.cong {g : Cfg} {c c' : Conn} (h : Parked g c) (hph : c'.phase = c.phase)
+theorem Parked.cong {g : Cfg} {O1 O2 : Bytes} {c c' : Conn} (h : Parked g O1 O2 c) (hph : c'.phase = c.phase)
     (hsc : c'.scripts = c.scripts) (hstop : c'.stop = c.stop) (hm : c'.env.mutex = c.env.mutex)
-    (hs : TrSame c.env.tr c'.env.tr) : Parked g c' :=
+    (hs : TrSame c.env.tr c'.env.tr) : Parked g O1 O2 c' :=
   ⟨hph.trans h.ph, hs.input.trans h.inp, hs.wlog.trans h.log, hs.ev1 h.ev, hs.mem h.re, hsc.trans h.sc,
    hstop.trans h.stop, hm.trans h.mtx, hs.ben h.ben, h.keep, hs.em.trans h.em⟩
 
@@ -126,8 +139,9 @@ theorem run_from_stage {g : Cfg} (ok : g.OK) : ∀ (A : Nat) (c : Conn) (n fuel 
     4 * c.env.tr.input.length + 17 ≤ 100000 →
     ∃ c', (c'.env.tr.endMode = c.env.tr.endMode ∧ ans c'.env.tr ≤ ans c.env.tr ∧ c'.env.segs = [] ∧
         ∀ s, s ∈ c.env.tr.events → s ∈ c'.env.tr.events) ∧
-      ((runTask fuel c n none = (c', "RET") ∧ Fin g c') ∨
-       (runTask fuel c n none = (c', "STALL") ∧ Parked g c')) := by
+      ∃ O1 O2, O1 ++ O2 = g.Ot ∧
+      ((runTask fuel c n none = (c', "RET") ∧ Fin g O1 O2 c') ∨
+       (runTask fuel c n none = (c', "STALL") ∧ Parked g O1 O2 c')) := by
   intro A
   induction A with
   | zero =>
@@ -144,16 +158,16 @@ theorem run_from_stage {g : Cfg} (ok : g.OK) : ∀ (A : Nat) (c : Conn) (n fuel 
         fun s hs => hl.ts.evm s (hsame.mem hs)⟩
     rw [runTask_succ, hpoll]
     cases ho with
-    | fin hfin => exact ⟨c', hem, Or.inl ⟨rfl, hfin⟩⟩
+    | @fin O1 O2 hO hfin => exact ⟨c', hem, O1, O2, hO, Or.inl ⟨rfl, hfin⟩⟩
     | pend hs' hw ha => omega
-    | park hs' hp =>
+    | @park O1 O2 hs' hO hp =>
       rcases hl.ts.wk with hw | ⟨_, ha⟩
       · rw [hwk] at hw
         simp only [hw, Bool.false_eq_true, if_false]
         have hsg' : c'.env.segs = [] := hl.segs.trans hsg
         rw [release_nil _ hsg']
         simp only [hw, Bool.false_eq_true, if_false]
-        refine ⟨_, ?_, Or.inr ⟨rfl, hp.cong rfl rfl rfl rfl ⟨rfl, rfl, rfl, rfl, rfl, rfl, [], by simp, Quiet.nil⟩⟩⟩
+        refine ⟨_, ?_, O1, O2, hO, Or.inr ⟨rfl, hp.cong rfl rfl rfl rfl ⟨rfl, rfl, rfl, rfl, rfl, rfl, [], by simp, Quiet.nil⟩⟩⟩
         exact hem
       · omega
   | succ A ih =>
@@ -175,18 +189,18 @@ theorem run_from_stage {g : Cfg} (ok : g.OK) : ∀ (A : Nat) (c : Conn) (n fuel 
         fun s hs => hl.ts.evm s (hsame.mem hs)⟩
     rw [runTask_succ, hpoll]
     cases ho with
-    | fin hfin => exact ⟨c', hem, Or.inl ⟨rfl, hfin⟩⟩
+    | @fin O1 O2 hO hfin => exact ⟨c', hem, O1, O2, hO, Or.inl ⟨rfl, hfin⟩⟩
     | pend hs' hw ha =>
       simp only [hw, if_true]
       obtain ⟨c2, ⟨h1, h1', h1'', h1e⟩, h2⟩ := ih c' (n + 1) f hs' hsg' (by omega) (by omega) hlen'
       exact ⟨c2, ⟨h1.trans hem.1, by have := hem.2.1; omega, h1'', fun s hs => h1e s (hem.2.2.2 s hs)⟩, h2⟩
-    | park hs' hp =>
+    | @park O1 O2 hs' hO hp =>
       rcases hl.ts.wk with hw | ⟨hw, ha⟩
       · rw [hwk] at hw
         simp only [hw, Bool.false_eq_true, if_false]
         rw [release_nil _ hsg']
         simp only [hw, Bool.false_eq_true, if_false]
-        refine ⟨_, ?_, Or.inr ⟨rfl, hp.cong rfl rfl rfl rfl ⟨rfl, rfl, rfl, rfl, rfl, rfl, [], by simp, Quiet.nil⟩⟩⟩
+        refine ⟨_, ?_, O1, O2, hO, Or.inr ⟨rfl, hp.cong rfl rfl rfl rfl ⟨rfl, rfl, rfl, rfl, rfl, rfl, [], by simp, Quiet.nil⟩⟩⟩
         exact hem
       · simp only [hw, if_true]
         obtain ⟨c2, ⟨h1, h1', h1'', h1e⟩, h2⟩ := ih c' (n + 1) f hs' hsg' (by omega) (by omega) hlen'
